@@ -170,6 +170,7 @@ def c02(tier):
     cases += lgrams.range_triple_specs(random.Random(seed() + 22), 40 if quick else 250)
     cn = lgrams.card_nesting_specs()
     cases += cn if not quick else cn[seed() % 2::2]
+    cases += lgrams.keyword_specs(random.Random(seed() + 24), 36 if quick else 150)
     cases = json.loads(json.dumps(cases))
     X = lex_explore(rep, sc, cases, rng, 500 if quick else 2500, 150 if quick else 400, 20 if quick else 120)
     acc, lruns = X["acc"], X["lruns"]
